@@ -577,6 +577,12 @@ impl VarIntEncoder {
             let mut group_data = Vec::new();
             
             for (i, &value) in chunk.iter().enumerate() {
+                if value > u32::MAX as u64 {
+                    // the selector has 2 bits per value: 1..=4 bytes
+                    return Err(ZiporaError::invalid_data(
+                        "Group varint supports values below 2^32 only",
+                    ));
+                }
                 let bytes_needed = if value == 0 {
                     1
                 } else {
